@@ -13,6 +13,10 @@ for d in /verif/seeded/*/; do
   id=$(basename $d); prop=${id%-*}
   case " $claimed " in *" $prop "*) ;; *) continue;; esac
   [ -n "$1" ] && [[ "$id" != *$1* ]] && continue
+  miss=$(python3 -c "import json;print(json.load(open('$d/meta.json')).get('expected_miss',''))")
+  if [ -n "$miss" ]; then echo "$id: expected miss ($miss)"; continue; fi
+  with=$(python3 -c "import json;print(json.load(open('$d/meta.json')).get('check_with',''))")
+  [ -n "$with" ] && prop=$with
   rsync -a --delete --exclude .git /repo/ $S/
   (cd $S && patch -s -p1 < $d/patch.diff) || { echo "$id: patch does not apply"; bad=1; continue; }
   out=$(GOVC_REPO=$S timeout 900 /verif/bin/govc check --property $prop 2>&1)
